@@ -1,10 +1,10 @@
-\* negative control: an indirect /Length that resolves to null taken as 0 (code before 8dab642) must violate ExtentOK
+\* negative control: a reader that lets every section on the /Prev chain contribute trailer keys must violate TrailerOK
 SPECIFICATION Spec
 CONSTANTS OFFBYONE = FALSE
-  NULLZERO = TRUE
+  NULLZERO = FALSE
   KEYGEN0 = FALSE
   DECRYPTMEMBERS = FALSE
-  TRAILERMERGE = FALSE
+  TRAILERMERGE = TRUE
   Objs = {1, 2, 3}
   MaxRevs = 2
   Styles = {"one", "each", "runs"}
